@@ -99,13 +99,12 @@ def place_u(m_row, W, u_abs, variant):
         return None
     if variant == 0:
         return float(0.5 * (a + b))
-    if variant == 1:
-        u = float(np.nextafter(a, np.inf))           # one ulp beyond the lower edge
-    else:
-        u = float(np.nextafter(b, -np.inf))          # one ulp inside the upper edge
-    if not (a < u < b):
+    # just beyond the lower edge / just inside the upper edge: 1e-12 relative — far above the rounding differences between this
+    # computation of the edge and the kernel's (fastmath may reassociate the products), far below any slice width of interest
+    d = 1e-12 * max(abs(a), abs(b))
+    if not (2 * d < (b - a)):
         return float(0.5 * (a + b))
-    return u
+    return float(a + d) if variant == 1 else float(b - d)
 
 
 def wrap(x, L):
